@@ -35,8 +35,18 @@ T = {
  "C17-2": ("C17", "store generation guard + lazy hydration of clean records", "three sessions: clean, restart, dirty, restart"),
  "C18-1": ("C18", "duplicate CreateTopic overwrites segment 1's leader before reporting EXISTS", "CreateTopic for an existing topic with a different initial leader"),
  "C18-2": ("C18", "rollover rejected for overflow has already recorded the seal", "a rollover whose count overflows the cumulative offset"),
+ "C06-3": ("C06", "recovery block-size arithmetic `need / UNIT + 1` (the mechanism of C07-2, written independently for this property)", "first entry of a block with header+payload an exact multiple of the block size, a non-empty block right after it, restart"),
+ "C06-4": ("C06", "count rebuild at open charges every block before the LAST one as consumed for a tail cursor (chain.len() - 1 instead of the persisted block id)", "consumer reads from the active block, goes idle, the writer rotates at least once, clean restart, count"),
+ "C09-3": ("C09", "persisted tail position folded into the LAST recovered block instead of the block with the persisted id", "checkpoint taken in the active block, the writer rotates on with no consuming read in between, crash/restart"),
+ "C09-4": ("C09", "AtLeastOnce: should_persist(force) evaluated (and the counter reset) on every read served from the active block", "persist_every >= 2, more than persist_every consuming reads from the active block, crash: more than persist_every redelivered"),
+ "C16-3": ("C16", "batch_write's header-size probe `> PREFIX_META_SIZE` instead of `- 2`", "batch append on the FD backend with a topic name of 217..224 bytes: FD panics with poisoned writer locks, mmap reports InvalidData"),
+ "C16-4": ("C16", "FD batch read: io_uring ring sized `plan.len().clamp(8, 64)`", "more than 64 unread blocks on one topic and one batch read whose budget spans them: FD errors for ever, mmap returns the entries"),
+ "C19-1": ("C19", "the state-machine adapter logs and swallows an application `apply` error instead of returning it (the node keeps applying later entries)", "a node-local application failure while one committed entry is applied: that node skips the command, the others do not"),
+ "C19-2": ("C19", "WalLogStore::append reports only the LAST record write's outcome to the flush callback and returns Ok", "a multi-entry append whose non-final record write fails, then a restart: an acknowledged entry is missing from the recovered log"),
  "C20-1": ("C20", "snapshot cache not invalidated by re-registration of a node with a new address", "an earlier snapshot, then UpsertNode of a known id with a new address, then snapshot"),
  "C20-2": ("C20", "restore validates node addresses as SocketAddr", "a registered node address with a host name"),
+ "C20-3": ("C20", "rollover to a node that is not registered falls back to `state.nodes.keys().next()` (HashMap order, differs per replica)", "at least two registered nodes and a committed rollover to a voter whose UpsertNode has not been applied: replicas restored from a snapshot pick different leaders"),
+ "C20-4": ("C20", "Metadata::snapshot takes the state lock with try_read (falls back to an empty ClusterState when a writer holds it)", "a snapshot overlapping the write-lock section of a concurrent apply"),
  "C21-1": ("C21", "read_all's batch byte budget cut from 10 MiB to 1 MiB (`RECOVERY_BATCH_BYTES`)", "one WAL record larger than 1 MiB (a large client proposal) followed by a restart: replay stops in front of it"),
  "C21-2": ("C21", "vendored engine copy: batch read records the resume block index per planned range instead of per parsed entry", "a Raft log spanning more than one 10 MiB engine block with fewer than 2000 records per block, restart: only the first block is replayed"),
  "C22-1": ("C22", "reader's `delivered_in_segment = 0` dropped when it leaves a sealed segment that another node drained", "GETs for one topic through two different nodes after a rollover: the second node enters the next segment with a stale count and skips acknowledged entries"),
